@@ -22,10 +22,11 @@ def cells(X):
     out = []
     for s in range(X['sessionStatesNo']):
         t = tos[s] if s < len(tos) else 0
-        for el in sorted({0, max(t - 1, 0), t, t + 1, 10 * t, 100}):
-            ops = ['fsm new 0 sess', 'clock 5000000']
+        for el in sorted({0, max(t - 1, 0), t, t + 1, 10 * t, 100, 255, 256, 256 + t, 65535, 65536, 65536 + t, 65537 + t, 2**32, 2**32 + t}):     # also what a narrowed elapsed time would alias
+            base = 5000 if el < 5000 else 10**10
+            ops = ['fsm new 0 sess', 'clock %d' % (base * 1000)]
             for i in INPUTS:
-                ops.append('fsm set 0 %d %d' % (s, 5000 - el))
+                ops.append('fsm set 0 %d %d' % (s, base - el))
                 ops.append('fsm step 0 %d' % i)
             out.append(('cell_s%d_e%d' % (s, el), ops))
     return out
@@ -46,6 +47,8 @@ def cases(rng, tier, X):
                 ops.append('clock %d' % rng.choice([0, 500, 999, 1000, 1001, 2000, 2001, 3000, rng.randint(0, 5000)]))
         out.append(('seq%d' % k, ops))
     # universal automata schedule (all public calls, missing objects, near-colliding keys, bridged frames, every deadline): this check's predicate on it
+    # one kind of call repeated hundreds of times (run lengths, counters, thresholds), then the consequences
+    out += auto.soak_cases(rng, tier)
     for k in range(150 if tier == 'quick' else 6000):
         out.append(('au%d' % k, auto.schedule(rng)))
         if k % 3 == 0:
@@ -58,4 +61,4 @@ def nontrivial(ops, impl):
 
 
 def classify(ops, impl):
-    return ['cell' if ops[1].startswith('clock 5000000') else 'sequence']
+    return ['cell' if (ops[1].startswith('clock 5000000') or ops[1].startswith('clock 10000000000000')) else 'sequence']
